@@ -1,0 +1,27 @@
+//go:build verif
+
+// Package verifhook provides scheduling points for the external
+// verification harness. With the "verif" build tag a callback can be
+// installed that is invoked at every Yield point.
+package verifhook
+
+import "sync/atomic"
+
+var fn atomic.Pointer[func(string)]
+
+// Yield marks a point, outside any critical section, at which the
+// verification harness may reschedule goroutines.
+func Yield(point string) {
+	if f := fn.Load(); f != nil {
+		(*f)(point)
+	}
+}
+
+// Set installs (or, with nil, removes) the Yield callback.
+func Set(f func(string)) {
+	if f == nil {
+		fn.Store(nil)
+		return
+	}
+	fn.Store(&f)
+}
